@@ -181,8 +181,9 @@ def render(n, env, toplevel=False):
         _, W, Is, Os, f, o, off, lim = n
         w = _withs(W, env)
         t = env.fresh_type()
-        el = [f'c{i} := ({render(x, env)})' for i, x in enumerate(Is)]
-        el += [f'l{i} := (distinct ({render(x, env)}))' for i, x in enumerate(Os)]
+        # names are unique per type so that unions of shaped selects stay legal
+        el = [f'c{t}_{i} := ({render(x, env)})' for i, x in enumerate(Is)]
+        el += [f'l{t}_{i} := (distinct ({render(x, env)}))' for i, x in enumerate(Os)]
         shape = (' { ' + ', '.join(el) + ' }') if el else ''
         return f'{w}select {t}{shape}' + _clauses(f, o, off, lim, env)
     if k == 'free':
